@@ -1,12 +1,14 @@
 #!/bin/bash
-# Builds every harness once (warms the Go build cache). Offline; uses files on disk only.
+# Builds every harness once (warms the Go build cache, incl. the std rebuild for the runtime overlay).
+# Offline; uses files on disk only.
 cd "$(dirname "$0")"
 export GOTOOLCHAIN=local GOPROXY=off GOSUMDB=off GOFLAGS= GOWORK=$PWD/go.work
 cp /repo/go.work.sum go.work.sum 2>/dev/null
 mkdir -p bin evidence replays
+python3 tools/instr.py bin/overlay || exit 1
 rc=0
 for d in mc/cmd/*/; do
   n=$(basename $d)
-  go1.26.8 build -o bin/$n ./mc/cmd/$n || rc=1
+  go1.26.8 build -overlay bin/overlay/overlay.json -o bin/$n ./mc/cmd/$n || rc=1
 done
 exit $rc
